@@ -17,6 +17,20 @@ import (
 type MiniS3 struct {
 	mu      sync.Mutex
 	Objects map[string][]byte // bucket + "\x00" + key
+	// FailPut, when set, decides per upload (object key, number of earlier attempts for that key) whether it fails and with what
+	FailPut  func(key string, attempt int) error
+	attempts map[string]int
+}
+
+// S3PutErrs are what a failing upload returns: a plain error and the request failures a real endpoint sends for
+// throttling, time-outs, internal errors and dropped connections.
+var S3PutErrs = []error{
+	errors.New("mini s3: injected PutObject failure"),
+	awserr.NewRequestFailure(awserr.New("SlowDown", "Please reduce your request rate.", nil), 503, "REQ1"),
+	awserr.NewRequestFailure(awserr.New("RequestTimeout", "Your socket connection to the server was not read from or written to within the timeout period.", nil), 400, "REQ2"),
+	awserr.NewRequestFailure(awserr.New("InternalError", "We encountered an internal error. Please try again.", nil), 500, "REQ3"),
+	awserr.NewRequestFailure(awserr.New("Throttling", "Rate exceeded", nil), 400, "REQ4"),
+	awserr.New("RequestError", "send request failed", errors.New("read: connection reset by peer")),
 }
 
 func NewMiniS3() *MiniS3 { return &MiniS3{Objects: map[string][]byte{}} }
@@ -48,6 +62,16 @@ func (f *MiniS3) PutObjectWithContext(ctx aws.Context, in *s3.PutObjectInput, op
 	}
 	f.mu.Lock()
 	defer f.mu.Unlock()
+	if f.FailPut != nil {
+		if f.attempts == nil {
+			f.attempts = map[string]int{}
+		}
+		n := f.attempts[*in.Key]
+		f.attempts[*in.Key] = n + 1
+		if err := f.FailPut(*in.Key, n); err != nil {
+			return nil, err
+		}
+	}
 	f.Objects[*in.Bucket+"\x00"+*in.Key] = b
 	return &s3.PutObjectOutput{}, nil
 }
